@@ -48,7 +48,7 @@ func TestLayoutSweep(t *testing.T) {
 				}
 				dsts := []string{""}
 				if o.DstOp {
-					dsts = []string{"nil", "sep", "inplace"}
+					dsts = dstForms
 				}
 				gaps := vk.Pick(layoutGaps[:1], layoutGaps)
 				for _, l := range lens {
